@@ -19,6 +19,13 @@ func (p *Parser) isTokenMatch(keyword string) bool {
 	return strings.EqualFold(p.currentToken.Literal, keyword)
 }
 
+// isMaxvalueKeyword reports whether the current token is the MAXVALUE keyword of a
+// partition bound. A quoted identifier spelled "maxvalue" is a name, not the keyword:
+// it keeps its spelling and is parsed as an expression.
+func (p *Parser) isMaxvalueKeyword() bool {
+	return p.isTokenMatch("MAXVALUE") && !p.isType(models.TokenTypeDoubleQuotedString)
+}
+
 // parseCreateStatement parses CREATE statements (TABLE, VIEW, MATERIALIZED VIEW, INDEX)
 func (p *Parser) parseCreateStatement() (ast.Statement, error) {
 	// Check for modifiers: OR REPLACE, TEMPORARY, TEMP
@@ -481,7 +488,7 @@ func (p *Parser) parsePartitionDefinition() (*ast.PartitionDefinition, error) {
 		// Parse value or MAXVALUE
 		if p.isType(models.TokenTypeLParen) {
 			p.advance() // Consume (
-			if p.isTokenMatch("MAXVALUE") {
+			if p.isMaxvalueKeyword() {
 				partDef.LessThan = &ast.Identifier{Name: "MAXVALUE"}
 				p.advance()
 			} else {
@@ -495,7 +502,7 @@ func (p *Parser) parsePartitionDefinition() (*ast.PartitionDefinition, error) {
 				return nil, p.expectedError(")")
 			}
 			p.advance() // Consume )
-		} else if p.isTokenMatch("MAXVALUE") {
+		} else if p.isMaxvalueKeyword() {
 			partDef.LessThan = &ast.Identifier{Name: "MAXVALUE"}
 			p.advance()
 		}
